@@ -436,3 +436,14 @@ class FreshPool:
 
     def __exit__(self, *a):
         self.close()
+
+
+def from_library(exc: BaseException) -> str | None:
+    """If the exception was raised while executing joserfc code, return 'Type@file:function' of the innermost joserfc frame
+    (then it is an *observation* about the library: a changed library made an operation fail that the harness relies on);
+    otherwise None (a harness bug: machinery failure)."""
+    tb = traceback.extract_tb(exc.__traceback__)
+    for fr in reversed(tb):
+        if "/joserfc/" in fr.filename and "/verif/" not in fr.filename:
+            return f"{type(exc).__name__}@{fr.filename.split('/joserfc/')[-1]}:{fr.name}"
+    return None
